@@ -530,13 +530,15 @@ func (in *Interp) eqNilAware(x, y value) *smt.Term {
 		return in.ctx.False() // compared with nil: Bytes() never returns nil... treat as non-nil
 	case *opaqueBytes:
 		return in.tokenNilEq(xv, y)
+	case *opaqueSlice:
+		return in.ctx.False() // made by make([]byte, n): never nil
 	case *closure, *ssa.Function, *ssa.Builtin, *nativeFn:
 		return in.ctx.Bool(isNilValue(x) && isNilValue(y))
 	}
 	switch yv := y.(type) {
 	case *opaqueBytes:
 		return in.tokenNilEq(yv, x)
-	case *bigBytes:
+	case *bigBytes, *opaqueSlice:
 		return in.ctx.False()
 	case *closure, *ssa.Function, *ssa.Builtin, *nativeFn:
 		return in.ctx.Bool(isNilValue(x) && isNilValue(y))
@@ -906,6 +908,8 @@ func (in *Interp) materialize(v value) sliceV {
 		return in.bigToBytes(s.t, -1)
 	case *opaqueBytes:
 		in.unsupported("byte access to a " + s.kind + " codec token")
+	case *opaqueSlice:
+		in.unsupported("access to the content of an opaque slice")
 	case nil:
 		return nil
 	}
@@ -1440,6 +1444,8 @@ func (in *Interp) callBuiltin(caller *frame, fn *ssa.Builtin, args []value) valu
 			return in.bigBytesLen(x)
 		case *opaqueBytes:
 			return in.opaqueBytesLen(x)
+		case *opaqueSlice:
+			return x.n
 		case *mapV:
 			if x == nil {
 				return in.intConst(intB, big.NewInt(0))
@@ -1464,6 +1470,8 @@ func (in *Interp) callBuiltin(caller *frame, fn *ssa.Builtin, args []value) valu
 			return in.bigBytesLen(x)
 		case *opaqueBytes:
 			return in.opaqueBytesLen(x)
+		case *opaqueSlice:
+			return x.n
 		case *chanV:
 			if x == nil {
 				return in.intConst(intB, big.NewInt(0))
